@@ -206,6 +206,26 @@ func ruleNewObjectCopies(c *Ctx, u *Universe, rule string) {
 		}
 		R.check(n >= 2 && bad == 0 && len(u.callsNamed(f, "pkg/value.DuplicateValue")) >= 1, rule, "pkg/value.NewObject", u.pos(f.Pos()),
 			"every class default put into a new object went through DuplicateValue", "a class default value is shared between the type and its instances")
+		// NewObject takes the entries of initProps as they are: no caller may hand it the class defaults themselves
+		nCall := 0
+		for _, cs := range u.staticCallers(f) {
+			nCall++
+			g := cs.Parent()
+			arg := cs.Common().Args[1]
+			shared := flowsFrom(arg, func(v ssa.Value) bool {
+				if call, ok := v.(*ssa.Call); ok && u.callName(call) == "pkg/value.ClassModel.GetPropList" {
+					return true
+				}
+				if _, ok := fieldLoad(v, "propList"); ok {
+					return true
+				}
+				return false
+			})
+			R.check(!shared, rule, u.fname(g)+":"+siteName(u, g, cs)+":initProps", u.pos(cs.Pos()), "the initial properties handed to NewObject are not the type's own default table", "the type's default property table is passed as initial properties: NewObject stores those values uncopied, so all objects of the type share them")
+		}
+		if nCall == 0 {
+			R.viol(rule, "pkg/value.NewObject:callers", u.pos(f.Pos()), "no caller of NewObject found")
+		}
 	} else {
 		R.lost(rule, "pkg/value.NewObject")
 	}
